@@ -5,6 +5,7 @@
 use crate::common::*;
 use crate::c02t::{fnv, unhexz};
 use humphrey::http::cors::Cors;
+use humphrey::http::headers::HeaderType;
 use humphrey::http::method::Method;
 use humphrey::http::{Request, Response, StatusCode};
 use humphrey::stream::Stream;
@@ -37,6 +38,13 @@ fn add_route(sub: SubApp<()>, pat: &str, kind: &str, cors: &str) -> SubApp<()> {
                 Response::new(StatusCode::OK, req.content.clone().unwrap_or_default())
             } else if k == "m" {
                 Response::empty(StatusCode::OK)
+            } else if let Some(which) = k.strip_prefix('h') {
+                let mut r = Response::new(StatusCode::OK, format!("h{}", which));
+                if which.contains('o') { r = r.with_header(HeaderType::AccessControlAllowOrigin, "https://h.example"); }
+                if which.contains('m') { r = r.with_header(HeaderType::AccessControlAllowMethods, "PATCH"); }
+                if which.contains('h') { r = r.with_header(HeaderType::AccessControlAllowHeaders, "X-H"); }
+                if which.contains('x') { r = r.with_header("X-Custom", "1").with_header(HeaderType::Server, "mine"); }
+                r
             } else {
                 std::panic::resume_unwind(Box::new("handler panic"))
             }
@@ -82,6 +90,13 @@ fn add_default(mut app: App<()>, spec: &str) -> Option<App<()>> {
                         Response::new(StatusCode::OK, req.content.clone().unwrap_or_default())
                     } else if k == "m" {
                         Response::empty(StatusCode::OK)
+                    } else if let Some(which) = k.strip_prefix('h') {
+                        let mut r = Response::new(StatusCode::OK, format!("h{}", which));
+                        if which.contains('o') { r = r.with_header(HeaderType::AccessControlAllowOrigin, "https://h.example"); }
+                        if which.contains('m') { r = r.with_header(HeaderType::AccessControlAllowMethods, "PATCH"); }
+                        if which.contains('h') { r = r.with_header(HeaderType::AccessControlAllowHeaders, "X-H"); }
+                        if which.contains('x') { r = r.with_header("X-Custom", "1").with_header(HeaderType::Server, "mine"); }
+                        r
                     } else {
                         std::panic::resume_unwind(Box::new("handler panic"))
                     }
